@@ -74,6 +74,7 @@ def do_request(app, req):
         headers['Accept'] = req['accept']
     env = make_environ(req['method'], req['target'], headers=headers, body=req.get('body', '').encode())
     env['sim.ids'] = []
+    env['sim.guids'] = []
     env['sim.ds'] = []
     env['sim.req_objs'] = []
     ex = call_app(app, env, validate=False)
@@ -96,6 +97,7 @@ def summarise(ex, env):
         'escaped': type(ex.escaped).__name__ if ex.escaped is not None else None,
         'proto': [e[0] for e in ex.errors],
         'ids': sorted(set(env['sim.ids']), key=repr),
+        'guids': sorted(set(env['sim.guids']), key=repr),
         'one_dispatch_state': len(set(id(d) for d in ds)) <= 1,
         'one_request_obj': len(set(id(r) for r in env['sim.req_objs'])) <= 1,
     }
@@ -167,8 +169,9 @@ def predict(cfg, r):
 
 
 def comparable(s):
-    d = {k: v for k, v in s.items() if k != 'ids'}
+    d = {k: v for k, v in s.items() if k not in ('ids', 'guids')}
     d['n_ids'] = len(s['ids'])   # every layer of one request sees ONE id
+    d['n_guids'] = len(s['guids'])
     return d
 
 
@@ -342,7 +345,7 @@ class C12(Check):
                 for r in seq:
                     path = '/br/%s%s?id=%d' % (r['x'], '/' if r['canon'] else '', r['id'])
                     env = make_environ('GET', path)
-                    env['sim.ids'], env['sim.ds'], env['sim.req_objs'] = [], [], []
+                    env['sim.ids'], env['sim.ds'], env['sim.req_objs'], env['sim.guids'] = [], [], [], []
                     ex = call_app(app, env, validate=False)
                     out.append((ex.code, ex.body.decode('utf8', 'replace'), ex.header('Location'),
                                 type(ex.escaped).__name__ if ex.escaped is not None else None))
@@ -400,11 +403,13 @@ class C12(Check):
         # sequential pass: warms caches, and IS the oracle ("served alone")
         expected = {}
         all_ids = []
+        all_guids = []
         for r in reqs:
             do_request(app, r)
             s = do_request(app, r)
             expected[r['name']] = s
             all_ids.extend(s['ids'])
+            all_guids.extend(s['guids'])
             if not s['one_dispatch_state'] or not s['one_request_obj']:
                 res.violate('C12/sequential/dispatch-state-not-shared-within-request',
                             '%s: layers of one request saw different request/dispatch-state objects' % r['kind'])
@@ -442,6 +447,7 @@ class C12(Check):
             g, e = got.get(name), expected[name]
             r = [x for x in reqs if x['name'] == name][0]
             all_ids.extend(g['ids'])
+            all_guids.extend(g['guids'])
             res.ev(name, r['kind'], r['id'], 'code', g['code'], 'escaped', g['escaped'])
             for what, s in (('alone', e), ('concurrently', g)):
                 p = predict(plan['config'], r)
@@ -465,6 +471,12 @@ class C12(Check):
         ids = [i for i in all_ids if i is not None]
         if len(ids) != len(all_ids):
             res.violate('C12/request-id-missing', 'a request had no request_id: %r' % (all_ids,))
+        # the other identifier the framework assigns: the guid derived from the id
+        guids = [x for x in all_guids if x is not None]
+        if len(guids) != len(all_guids):
+            res.violate('C12/request-guid-missing', 'a request had no request_guid: %r' % (all_guids,))
+        elif len(set(guids)) != len(guids):
+            res.violate('C12/request-guid-duplicate', 'request guids not unique within the process: %r' % (sorted(x for x in set(guids) if guids.count(x) > 1),))
         if len(set(ids)) != len(ids):
             dup = sorted(set(i for i in ids if ids.count(i) > 1))
             res.violate('C12/request-id-duplicate', 'request ids not unique within the process: %r (dups %r)'
